@@ -586,7 +586,12 @@ class DBSessionContextManager(object):
                         if cache.modified or cache.in_transaction: throw(TransactionError,
                             'You need to manually commit() changes before suspending the generator')
                 except:
-                    rollback_and_reraise(sys.exc_info())
+                    # same rule as for the other forms: commit if the exception is allowed, else roll back
+                    exc_type, exc, tb = sys.exc_info()
+                    try:
+                        db_session._commit_or_rollback(exc_type, exc, tb)
+                        reraise(exc_type, exc, tb)
+                    finally: del exc, tb
                 else:
                     return output
                 finally:
